@@ -28,9 +28,10 @@ type GCheck struct {
 }
 
 type gsite struct {
-	cut   []edge
-	okVal ssa.Value // a Return handing this value straight back is guarded by the check
-	instr ssa.Instruction
+	cut      []edge
+	okVal    ssa.Value // a Return handing this value straight back is guarded by the check
+	falseVal ssa.Value // a Return handing this value back answers false exactly when the check passed
+	instr    ssa.Instruction
 }
 
 func inModule(f *ssa.Function) bool {
@@ -262,7 +263,14 @@ func (c *Ctx) sites(f *ssa.Function, env Env, chk *GCheck, depth int) []gsite {
 					continue
 				}
 				if m, onTrue := chk.MatchCmp(c, x, env); m {
-					out = append(out, gsite{cut: boolEdgesT(x, onTrue), instr: x})
+					s := gsite{cut: boolEdgesT(x, onTrue), instr: x}
+					// a function that hands the comparison back as its verdict
+					if onTrue {
+						s.okVal = x
+					} else {
+						s.falseVal = x
+					}
+					out = append(out, s)
 				}
 			case *ssa.TypeAssert:
 				if chk.MatchOK != nil && x.CommaOk && chk.MatchOK(c, x, env) {
@@ -416,12 +424,21 @@ func (c *Ctx) ensuresFalse(f *ssa.Function, env Env, chk *GCheck, depth int) boo
 	}
 	c.gmemo[key] = 2
 	n := 0
+	falseVals := map[ssa.Value]bool{}
+	for _, st := range c.sites(f, env, chk, depth) {
+		if st.falseVal != nil {
+			falseVals[st.falseVal] = true
+		}
+	}
 	ok, _, sites := c.guard(f, env, chk, func(in ssa.Instruction) bool {
 		ret, isR := in.(*ssa.Return)
 		if !isR || len(ret.Results) != 1 {
 			return false
 		}
 		n++
+		if falseVals[returnedValue(ret, 0)] {
+			return false
+		}
 		if k, isK := returnedValue(ret, 0).(*ssa.Const); isK && k.Value != nil && constant.BoolVal(k.Value) {
 			return false
 		}
@@ -939,6 +956,39 @@ type tableEnv struct {
 	cut   map[edge]bool
 	group ssa.Value
 	alt   int
+	fns   map[ssa.Value]*ssa.Function // element fields holding functions: the load -> the function stored for this element
+}
+
+// globalSliceInit: the slice literal a package-level variable is initialised with, when that is its only write.
+func (c *Ctx) globalSliceInit(g *ssa.Global) *ssa.Slice {
+	if g.Pkg == nil || !strings.HasPrefix(g.Pkg.Pkg.Path(), modPath) {
+		return nil
+	}
+	if c.gsMemo == nil {
+		c.gsMemo = map[*ssa.Global]*ssa.Slice{}
+	}
+	if sl, ok := c.gsMemo[g]; ok {
+		return sl
+	}
+	var res *ssa.Slice
+	n := 0
+	for _, fn := range allFuncs(g.Pkg) {
+		forEachInstr(fn, func(in ssa.Instruction) {
+			st, ok := in.(*ssa.Store)
+			if !ok || st.Addr != ssa.Value(g) {
+				return
+			}
+			n++
+			if fn.Name() == "init" {
+				res, _ = st.Val.(*ssa.Slice)
+			}
+		})
+	}
+	if n != 1 {
+		res = nil
+	}
+	c.gsMemo[g] = res
+	return res
 }
 
 func (c *Ctx) tableLoopEnvs(f *ssa.Function, env Env) []Env {
@@ -953,12 +1003,39 @@ func (c *Ctx) tableLoopEnvs(f *ssa.Function, env Env) []Env {
 
 func (c *Ctx) tableLoopEnvsAlt(f *ssa.Function, env Env) []tableEnv {
 	var out []tableEnv
+	// candidate tables: array literals sliced in f, and package-level slice literals f loads (the literal is then
+	// built by the package initialiser; the global must be written nowhere else)
+	type cand struct {
+		sl    *ssa.Slice
+		loads []ssa.Value // global form: the loads of the global in f
+	}
+	var cands []cand
 	for _, b := range f.Blocks {
 		for _, in := range b.Instrs {
-			sl, ok := in.(*ssa.Slice)
-			if !ok {
-				continue
+			if sl, ok := in.(*ssa.Slice); ok {
+				cands = append(cands, cand{sl: sl})
 			}
+			if ld, ok := in.(*ssa.UnOp); ok && ld.Op == token.MUL {
+				if g, isG := ld.X.(*ssa.Global); isG {
+					if sl := c.globalSliceInit(g); sl != nil {
+						found := false
+						for i := range cands {
+							if cands[i].sl == sl {
+								cands[i].loads = append(cands[i].loads, ld)
+								found = true
+							}
+						}
+						if !found {
+							cands = append(cands, cand{sl: sl, loads: []ssa.Value{ld}})
+						}
+					}
+				}
+			}
+		}
+	}
+	{
+		for _, cd := range cands {
+			sl := cd.sl
 			al, ok := sl.X.(*ssa.Alloc)
 			if !ok {
 				continue
@@ -1017,9 +1094,15 @@ func (c *Ctx) tableLoopEnvsAlt(f *ssa.Function, env Env) []tableEnv {
 				alt int
 			}
 			rs := []ranged{{v: sl}}
+			if len(cd.loads) > 0 {
+				rs = nil
+				for _, ld := range cd.loads {
+					rs = append(rs, ranged{v: ld})
+				}
+			}
 			for _, r := range *sl.Referrers() {
 				phi, isPhi := r.(*ssa.Phi)
-				if !isPhi {
+				if !isPhi || len(cd.loads) > 0 {
 					continue
 				}
 				for i, e := range phi.Edges {
@@ -1091,6 +1174,7 @@ func (c *Ctx) tableLoopEnvsAlt(f *ssa.Function, env Env) []tableEnv {
 						e[kk] = vv
 					}
 					okAll := true
+					var fns map[ssa.Value]*ssa.Function
 					for _, rd := range reads {
 						sv, has := stores[k][rd.fld]
 						if !has {
@@ -1098,9 +1182,17 @@ func (c *Ctx) tableLoopEnvsAlt(f *ssa.Function, env Env) []tableEnv {
 							break
 						}
 						e[rd.v] = c.Path(sv, env)
+						if _, isSig := sv.Type().Underlying().(*types.Signature); isSig {
+							if fn := funcValueOf(sv); fn != nil {
+								if fns == nil {
+									fns = map[ssa.Value]*ssa.Function{}
+								}
+								fns[rd.v] = fn
+							}
+						}
 					}
 					if okAll {
-						out = append(out, tableEnv{env: e, cut: rg.cut, group: rg.v, alt: rg.alt})
+						out = append(out, tableEnv{env: e, cut: rg.cut, group: rg.v, alt: rg.alt, fns: fns})
 					}
 				}
 			}
@@ -1132,8 +1224,8 @@ func loopBypassed(f *ssa.Function, l *loop) bool {
 func (c *Ctx) guardViaTable(f *ssa.Function, env Env, chk *GCheck) bool {
 	tes := c.tableLoopEnvsAlt(f, env)
 	holds := func(te tableEnv) bool {
-		c.extraCut = te.cut
-		defer func() { c.extraCut = nil }()
+		c.extraCut, c.fnSubst = te.cut, te.fns
+		defer func() { c.extraCut, c.fnSubst = nil, nil }()
 		ok, _, n := c.GuardLoop(f, te.env, chk)
 		if !ok || n == 0 {
 			return false
